@@ -62,6 +62,13 @@ def faults_for(rng, case, tensors, dims, for_evaluate):
         kw = {k: v for k, v in tensors.items() if k != n}
         yield f"missing:{n}", kw, ()
     yield "extra", {**tensors, "zzz": tensors[names[0]]}, ()
+    # an extra argument spelled like the TARGET of the assignment (a kernel parameter, but not an argument)
+    tname = case.target[1]
+    if tname not in tensors:
+        yield f"extra-named-like-target:{tname}", {**tensors, tname: tensors[names[0]]}, ()
+        tdims = tuple(case.sizes[i] for i in case.target[2])
+        tm, to = taco.parse_fmt(case.formats[tname])
+        yield f"extra-output-shaped-named-like-target:{tname}", {**tensors, tname: taco.to_tensor({}, tdims, tm, to)}, ()
     if not for_evaluate:
         yield "positional", {k: v for k, v in tensors.items() if k != names[0]}, (tensors[names[0]],)
     for n in names:
